@@ -671,11 +671,12 @@ def check_case(ctx, case, tables, extra, collect=None):
     status, world = P.run_impl(case, extra)
     if status == "infra":
         raise core.InfraError("CSV round trip: " + world)
-    picks = expected_picks(case)
     if status == "ok":
-        ids = [str(case["sites"]["rows"][i]["site_ID"]) for i in picks]
-        if [s["sid"] for s in world] != ids and sorted(s["sid"] for s in world) == sorted(ids):
-            raise core.InfraError("the sample of sites could not be reproduced from the numpy seed")
+        # the sample is an input of the model: the rows the implementation actually drew, in its order
+        row_of = {str(r["site_ID"]): i for i, r in enumerate(case["sites"]["rows"])}
+        picks = [row_of.get(s["sid"], 0) for s in world]
+    else:
+        picks = expected_picks(case)
     oracle(ctx, case, tables, status, world, picks, collect)
     return status, world, picks
 
